@@ -265,6 +265,7 @@ class Mirror:
         if k == "failwalk":
             return {"exc": "TypeError"}, ["failing-walk"]
         if k == "copy":
+            self.copy_base = len(self.objs)
             self.copy(o)
             return {"ok": None}, []
         if k in ("set", "append"):
@@ -574,15 +575,28 @@ def norm_answer(q, a):
 
 def oracle(case, res):
     """Direct statement of C13 on the implementation's outcomes.  Returns (message, classes, op index) of the
-    first operation that violates it, or None."""
+    first operation that violates it, or None.  `classes` are computed from the history before the failing
+    operation and only as far as they concern the object the operation addresses: a label is attached when an
+    object poisoned by a failing walk call / modified below a frozen object is reachable from it."""
     m = Mirror(case)
+    touched = {}          # label -> set of object ids
     seen = set()
+
+    def relevant(o):
+        rs = m.reach(o)
+        return sorted(l for l, objs in touched.items() if objs & rs)
+
     for i, (op, r) in enumerate(zip(case["ops"], res["outs"])):
-        classes = sorted(seen)
+        k = op[0]
+        target = None
+        if k == "set":
+            target = m.set_target(op[1], op[2])
+        elif k in ("append", "del", "failwalk"):
+            target = op[1]
         exp, labels = m.apply(op)
         got = {"exc": r["exc"]} if "exc" in r else {"ok": r.get("ok")}
-        k = op[0]
         if k == "query":
+            classes = relevant(op[1])
             if "ok" in got:
                 if op[2][0] == "info" and not got["ok"].get("render_ok"):
                     return "info text is not the rendering of the lists it was built from", classes, i
@@ -594,36 +608,43 @@ def oracle(case, res):
             sh = {"ok": norm_answer(op[2], sh["ok"])} if "ok" in sh else sh
             if sh != exp:
                 return ("%s on an unfrozen deep copy of object %d is %s but the composition gives %s" % (
-                    op[2][0], op[1], json.dumps(sh)[:300], json.dumps(exp)[:300])), classes, i
+                    op[2][0], op[1], json.dumps(sh)[:300], json.dumps(exp)[:300])), [], i
         elif k == "failwalk":
             if "exc" not in got:
-                return "the failing call did not fail", classes, i
+                return "the failing call did not fail", [], i
         else:
+            # frozen flags of the implementation can differ from the reference only through a stale
+            # direct_tuples_with_type cache, i.e. after an unguarded delattr on a frozen object
+            classes = ["delattr-on-frozen"] if "delattr-on-frozen" in seen else []
             if ("exc" in exp) != ("exc" in got) or ("exc" in exp and exp["exc"] != got["exc"]):
                 what = "a frozen object accepted a modification" if "rejected" in labels and "exc" not in got else \
                     "%s on object %d: outcome %s, expected %s" % (k, op[1] if k != "new" else -1, got, exp)
                 return what, classes, i
             if k == "new" and "ok" in got and r.get("attrs") != m.objs[-1].attrs:
-                return "constructed object has attributes %s, expected %s" % (r.get("attrs"), m.objs[-1].attrs), classes, i
+                return "constructed object has attributes %s, expected %s" % (r.get("attrs"), m.objs[-1].attrs), [], i
             if k == "copy":
                 new = r.get("new", [])
                 mine = m.objs[len(m.objs) - len(new):]
+                if len(new) != len(m.objs) - m.copy_base:
+                    return "copy has %d objects, expected %d" % (len(new), len(m.objs) - m.copy_base), [], i
                 for a, b in zip(new, mine):
                     if a["kind"] != b.kind or a["attrs"] != b.attrs:
-                        return "copy differs from the original composition", classes, i
+                        return "copy differs from the original composition", [], i
                     if not a["cache_empty"]:
-                        return "copy carries a cache", classes, i
-                    if a["frozen"] != b.frozen and not seen:
+                        return "copy carries a cache", [], i
+                    if a["frozen"] != b.frozen:
                         return "copy has a different frozen flag", classes, i
-        seen.update(l for l in labels if l != "rejected")
-    classes = sorted(seen)
+        for l in labels:
+            if l != "rejected":
+                seen.add(l)
+                touched.setdefault(l, set()).add(target)
     comp = [ob.attrs for ob in m.objs]
     if res["comp"] != comp:
-        return "final composition differs from the reference composition", classes, len(case["ops"])
-    if not seen and res["frozen"] != [ob.frozen for ob in m.objs]:
-        return "final frozen flags %s differ from the reference %s" % (res["frozen"], [ob.frozen for ob in m.objs]), classes, len(case["ops"])
+        return "final composition differs from the reference composition", [], len(case["ops"])
+    if "delattr-on-frozen" not in seen and res["frozen"] != [ob.frozen for ob in m.objs]:
+        return "final frozen flags %s differ from the reference %s" % (res["frozen"], [ob.frozen for ob in m.objs]), [], len(case["ops"])
     if res.get("stale_recursion_entries") and "failing-walk" not in seen:
-        return "recursion cache not empty at the end of the history", classes, len(case["ops"])
+        return "recursion cache not empty at the end of the history", [], len(case["ops"])
     return None
 
 
